@@ -122,7 +122,16 @@ extern "C" void h_hostile(void) {
     try { bool c = v.Contains(RNAME0); size_t gi = 0; bool found = true; try { gi = v.GetIndex(RNAME0); } catch (const std::exception&) { found = false; } vf_assert(c == found && (!found || gi < count), "Contains and GetIndex agree"); } catch (const std::exception&) {}
     // the object is as usable as before: the listing is unchanged after all the calls above
     vf_assert(v.GetCount() == count, "failed calls changed the member count");
-    if (count > 0) { try { auto st = v.OpenStream(count - 1); uint8_t b; if (st->Length()) st->Read(b); } catch (const std::exception&) {} }
+    // ... and every member stream behaves exactly as on a freshly opened archive (failed calls left no trace)
+    Archive::VolFile fresh("r.vol");
+    vf_assert(fresh.GetCount() == count, "fresh object lists the same members");
+    for (size_t i = 0; i < CNT + UNUSED; i++) {
+      if (i >= count) break;
+      int ok1 = 0, ok2 = 0; uint64_t l1 = 0, l2 = 0; uint8_t b1 = 0, b2 = 0;
+      try { auto st = v.OpenStream(i); l1 = st->Length(); if (l1) st->Read(b1); ok1 = 1; } catch (const std::exception&) {}
+      try { auto st = fresh.OpenStream(i); l2 = st->Length(); if (l2) st->Read(b2); ok2 = 1; } catch (const std::exception&) {}
+      vf_assert(ok1 == ok2 && l1 == l2 && b1 == b2, "after failed calls the archive behaves differently from a freshly opened one");
+    }
   } catch (const std::exception&) {}
   VF_WITNESS();
 }
